@@ -312,6 +312,17 @@ impl BinCtx {
     pub fn exec(&mut self, toks: &[&str]) {
         match toks {
             ["boot", rest @ ..] => self.boot(rest),
+            ["bootdir", path] => {
+                // start the server on an EXISTING data directory that nothing else has opened since it
+                // was left behind (no library call of the harness touches it before the server does)
+                let a = format!("127.0.0.1:{}", free_port());
+                self.addrs = vec![a.clone()];
+                self.args = vec!["--data-dir".into(), (*path).into(), "--listen".into(), a.into()];
+                self.envs = vec![];
+                let ok = self.spawn();
+                self.h.l1.out.push(format!("OP mark bootdir up={}", ok as u8));
+                self.h.l1.out.push("R mark".into());
+            }
             ["bootocc", n, k, src] => {
                 // N listen addresses of which the K-th cannot be bound (another process holds the port).
                 // The server either refuses to start or serves on EVERY address it was given; running on
